@@ -166,6 +166,10 @@ def handler : Driver.Handler := fun c i => do
   | .ok oj =>
     let iObs ← (← oj.getArr?).toList.mapM parseObs
     let k := decide (iObs = mObs)
+    -- full model trace only when it is needed to read a disagreement
+    let mJson := if k then (match mObs.getLast? with
+        | some l => Json.mkObj [("observations", Json.num (JsonNumber.fromNat mObs.length)), ("last", jObs l)]
+        | none => Json.null) else mJson
     let o : Option String :=
       if !env.isSelf selfAddr then some "is_self_address(self, self) is false"
       else if iObs.length != ops.length + 1 then some "wrong number of observations"
